@@ -24,7 +24,7 @@
 From Coq Require Import String.
 From MW Require Import Model.Base Model.F64 Model.Num Model.NumArith Model.Datum Model.Lex Model.Parse
   Model.TransformDef Model.Transform Model.VmTypes Model.Heap Model.VmBase Model.Compile Model.Gc
-  Model.Depth Proofs.DepthProofs.
+  Model.Depth Proofs.DepthProofs Proofs.DepthProofs2.
 Open Scope nat_scope.
 
 (* the property at full strength, in the model's vocabulary: every pass has bounded native
@@ -201,21 +201,66 @@ Theorem C19_refuted : ~ C19_full.
 Proof. exact (fun H => unbounded_not_bounded _ _ _ display_car_unbounded (proj1 H)). Qed.
 Print Assumptions C19_refuted.
 
+(* ------------------------------------- formerly OPEN (work package c19b): now proved *)
+(* get_as_cell on the heap image of #(#(#( () ))): exactly 2k+2 frames (get_as_cell(Ptr) ->
+   get_as_cell(Vector) per level), and the datum comes back *)
+Theorem C19_get_as_cell_vector_exact : forall bname n k fuel, k <= n -> fuel >= 2 * k + 2 ->
+  gac_d bname (vec_heap n) (vec_store n) fuel (VPtr (N.of_nat k)) = (2 * k + 2, Ok (nest_vec k)).
+Proof. exact gac_vec_exact. Qed.
+Print Assumptions C19_get_as_cell_vector_exact.
+Theorem C19_get_as_cell_vector_unbounded : forall bname k fuel, fuel >= 3 * k + 2 ->
+  fst (gac_d bname (vec_heap k) (vec_store k) fuel (VPtr (N.of_nat k))) > k.
+Proof. exact gac_vec_unbounded. Qed.
+Print Assumptions C19_get_as_cell_vector_unbounded.
+
+(* mark through nested vectors: two frames per level (mark -> mark_vcell per element -> mark) *)
+Theorem C19_mark_vector_ge : forall vd n k fuel, k <= n -> fuel >= k -> vd >= 1 ->
+  fst (mark_d (vec_heap n) (vec_store n) vd fuel (N.of_nat k) tempty) >= 2 * k + 1.
+Proof. exact mark_vec_ge. Qed.
+Print Assumptions C19_mark_vector_ge.
+Theorem C19_mark_vector_unbounded : forall vd k fuel, fuel >= 2 * k + 2 -> vd >= 1 ->
+  fst (mark_d (vec_heap k) (vec_store k) vd fuel (N.of_nat k) tempty) > k.
+Proof. exact mark_vec_unbounded. Qed.
+Print Assumptions C19_mark_vector_unbounded.
+Example vector_depths_20 :
+  gac_d (fun _ => []) (vec_heap 20) (vec_store 20) 100 (VPtr 20) = (42, Ok (nest_vec 20)) /\
+  fst (mark_d (vec_heap 20) (vec_store 20) 5 100 20 tempty) = 41.
+Proof. vm_compute. split; reflexivity. Qed.
+
+(* equal? along the cdr, after the two fixes in compare.rs (the final cdrs are compared by a
+   nested call of equal; numbers compare exactness-aware): two disjoint equal lists of i
+   elements, i >= 2, are compared in EXACTLY 3 frames whatever i — equal -> compare_pair ->
+   equal (on a car, or on the two final cdrs: () against () answers through eqv at once);
+   compare_pair's loop follows both cdr chains in one frame.  (i = 1: eqv answers, 1 frame.) *)
+Theorem C19_equal_cdr_bounded : forall prof s n i fuel, 1 <= i -> i <= n ->
+  fst (equal_d prof (cdr2_heap n) s fuel (VPtr (N.of_nat (2 * i - 1))) (VPtr (N.of_nat (2 * i)))) <= 3.
+Proof. exact equal_cdr_le. Qed.
+Print Assumptions C19_equal_cdr_bounded.
+Theorem C19_equal_cdr_exact : forall prof s n i fuel, 2 <= i -> i <= n -> fuel >= i + 2 ->
+  equal_d prof (cdr2_heap n) s fuel (VPtr (N.of_nat (2 * i - 1))) (VPtr (N.of_nat (2 * i))) = (3, Ok true).
+Proof. exact equal_cdr_exact. Qed.
+Print Assumptions C19_equal_cdr_exact.
+(* the general form: on every heap whose pairs have leaf cars (neither pair nor vector) and
+   whose cdrs are not vectors — lists of atoms of any length, proper or improper, equal or
+   not, sharing or not — equal? of two addresses never exceeds 3 frames *)
+Theorem C19_equal_flat_bounded : forall prof s h, flat_heap h -> forall fuel p q,
+  (forall x, heap_get h p = Ok x -> is_vvec x = false) ->
+  fst (equal_d prof h s fuel (VPtr p) (VPtr q)) <= 3.
+Proof. exact equal_flat_le. Qed.
+Print Assumptions C19_equal_flat_bounded.
+Example cdr2_heap_is_flat : flat_heap (cdr2_heap 30).
+Proof. exact (cdr2_heap_flat 30). Qed.
+(* an improper and a proper flat list of different lengths: still 3 frames, answer #f *)
+Example equal_flat_improper :
+  let h := heap_of_fun (fun i => match i with 0 => VNil | 1 => VNum (Fixnum 7) | 2 => VPair 1 1
+                                  | 3 => VPair 1 2 | 4 => VPair 1 0 | 5 => VPair 1 4 | _ => VPair 1 5 end)%N 7 in
+  equal_d Debug h store_empty 50 (VPtr 3) (VPtr 6) = (3, Ok false).
+Proof. vm_compute. reflexivity. Qed.
+
 (* ---------------------------------------------------------------------- OPEN *)
-(* Not proved (stated, exercised by the correspondence and the grid only):
-   - get_as_cell / mark / equal? through nested vectors (vec_heap, vec_store) and quote chains;
-   - equal? along the cdr is bounded (cdr2_heap; instance: equal_depths_30);
+(* Not proved (exercised by the correspondence and the grid only):
+   - get_as_cell / mark / equal? through quote chains, equal? through nested vectors;
    - mark through a chain of closures / of continuations is unbounded (needs the lambda and
      environment payloads of Model/Vm.v in the witness heap);
    - the VM run loop adds no native frame per Scheme call (non-tail recursion, closure and
      continuation chains at run time): run.rs is a loop by inspection; not modelled here. *)
-Definition C19_get_as_cell_vector_unbounded_stmt : Prop := forall bname k fuel, fuel >= 3 * k + 2 ->
-  fst (gac_d bname (vec_heap k) (vec_store k) fuel (VPtr (N.of_nat k))) > k.
-Definition C19_mark_vector_unbounded_stmt : Prop := forall vd k fuel, fuel >= 2 * k + 2 -> vd >= 1 ->
-  fst (mark_d (vec_heap k) (vec_store k) vd fuel (N.of_nat k) tempty) > k.
-Definition C19_equal_cdr_bounded_stmt : Prop := forall prof s n i fuel, 1 <= i -> i <= n ->
-  fst (equal_d prof (cdr2_heap n) s fuel (VPtr (N.of_nat (2 * i - 1))) (VPtr (N.of_nat (2 * i)))) <= 3.
-Example open_statements_hold_on_instances :
-  fst (gac_d (fun _ => []) (vec_heap 20) (vec_store 20) 100 (VPtr 20)) = 42 /\
-  fst (mark_d (vec_heap 20) (vec_store 20) 5 100 20 tempty) = 41.
-Proof. vm_compute. split; reflexivity. Qed.
